@@ -585,6 +585,9 @@ static RunResult exec_merge(const Plan &p)
 				cl.query(0, Bytes(), Bytes(), 0);
 				mtbl_reader_destroy(&rd);
 			}
+		} else if (dup_keys && !mc.fail_fired && r == mtbl_res_success) {
+			// the same key twice in a row reached the writer: its gate must have refused the copy
+			res.fail("MODEL", "SWRITE-accepted-repeated-key", "mtbl_source_write reported success although the merger (no merge function) yields a key more than once");
 		} else if (mc.fail_fired && r == mtbl_res_success) {
 			// a failed fold must not be reported as a complete copy: the output must lack the failed key
 			res.probes["swrite-after-merge-failure"]++;
